@@ -12,7 +12,6 @@ Fixpoint bad_indices_from {A} (chk : A -> bool) (k : nat) (l : list A) : list na
   end.
 Definition bad_indices {A} (chk : A -> bool) (l : list A) : list nat := bad_indices_from chk 0 l.
 
-Definition row_eqb : row -> row -> bool := list_eqb Nat.eqb.
 Definition res_eqb {A} (eqb : A -> A -> bool) (a b : result A) : bool :=
   match a, b with
   | Ok x, Ok y => eqb x y
